@@ -835,3 +835,55 @@ func VerifRename(n int) {
 	verifapi.Classify("C13/output-differs-beyond-renaming/" + sk.category + "/" + shape)
 	verifapi.Assert(outB == strings.ReplaceAll(outA, sk.ref, name), "C13-rename")
 }
+
+// ---- C14: keyword argument order ----
+
+var verifPerm3 = [][]int{{0, 1, 2}, {0, 2, 1}, {1, 0, 2}, {1, 2, 0}, {2, 0, 1}, {2, 1, 0}}
+
+// VerifKwOrder: a call with up to 3 keyword arguments (values of solver-chosen kinds) against
+// a user-defined or a configured method, written once in declaration order and once in a
+// solver-chosen permutation; the outputs must be identical. Shapes: required and defaulted
+// keywords, one keyword missing, an undeclared keyword, a leading positional.
+func VerifKwOrder(n int) {
+	target := verifapi.Concrete(verifapi.Int("target", 0, 1)) // 0 user-defined, 1 configured (Sym.kw)
+	shape := verifapi.Concrete(verifapi.Int("shape", 0, 3))   // 0 all given, 1 one missing, 2 undeclared extra, 3 defaulted one omitted
+	perm := verifPerm3[verifapi.Concrete(verifapi.Int("perm", 1, 5))]
+	s := verifInstallSym("a", "b")
+	verifapi.WitnessList("Sym.a", verifKN(s.ka))
+	verifapi.WitnessList("Sym.b", verifKN(s.kb))
+	if target == 1 {
+		builtin.VerifInstallSymKw()
+	}
+	// the three keyword arguments of the call, in declaration order
+	kws := []string{"ka: Sym.a", "kb: Sym.b", "kc: 1"}
+	switch shape {
+	case 1:
+		kws = []string{"ka: Sym.a", "kc: 1", ""} // kb (required) missing
+	case 2:
+		kws = []string{"ka: Sym.a", "kb: Sym.b", "zz: 1"} // undeclared keyword
+	case 3:
+		kws = []string{"ka: Sym.a", "kb: Sym.b", ""} // defaulted kc omitted
+	}
+	call := func(order []int) string {
+		args := "1"
+		for _, i := range order {
+			if kws[i] != "" {
+				args += ", " + kws[i]
+			}
+		}
+		if target == 1 {
+			return "r = Sym.kw(" + args + ")\ndbtp r\n"
+		}
+		return "r = mm(" + args + ")\ndbtp r\n"
+	}
+	pre := ""
+	if target == 0 {
+		pre = "def mm(p, ka:, kb:, kc: 2)\ndbtp ka\ndbtp kb\ndbtp kc\np\nend\n"
+	}
+	a := pre + call([]int{0, 1, 2})
+	b := pre + call(perm)
+	outA, outB := verifRunTwo(a, b)
+	verifapi.Reach("ran")
+	name := []string{"user-defined-method", "configured-method"}[target] + "/" + []string{"all-keywords-given", "required-keyword-missing", "undeclared-keyword", "defaulted-keyword-omitted"}[shape]
+	verifExpectShift("C14-order", "C14/output-depends-on-keyword-order/"+name, a, b, outA, outB, 1000, 0)
+}
